@@ -288,10 +288,21 @@ def details_fields(ctx, ss, rule):
         ok = True
         for a in alts_:
             core = a
-            if isinstance(core, ast.BinOp) and isinstance(core.op, ast.Add) and isinstance(core.left, ast.Constant) and name == "model":
-                core = core.right
-            if isinstance(core, ast.IfExp) and name == "model":
-                core = core.orelse
+            if name == "model":
+                # the reported model may carry the display prefix "PHOTOS ": strip a textual prefix in any of its spellings
+                def _is_prefix(x):
+                    return (isinstance(x, ast.Constant) and isinstance(x.value, str)) or \
+                        (isinstance(x, ast.IfExp) and _is_prefix(x.body) and _is_prefix(x.orelse))
+                for _ in range(4):
+                    if isinstance(core, ast.BinOp) and isinstance(core.op, ast.Add) and _is_prefix(core.left):
+                        core = core.right
+                    elif isinstance(core, ast.IfExp):
+                        core = core.orelse
+                    elif isinstance(core, ast.JoinedStr) and core.values and isinstance(core.values[-1], ast.FormattedValue) and core.values[-1].format_spec is None \
+                            and all((isinstance(v_, ast.Constant)) or (isinstance(v_, ast.FormattedValue) and _is_prefix(v_.value)) for v_ in core.values[:-1]):
+                        core = core.values[-1].value
+                    else:
+                        break
             if not (isinstance(core, ast.Call) and txt(core.func) == acc and len(core.args) == 1 and not core.keywords
                     and is_identity(core.args[0], "decay_mode")):
                 # not the accessor call itself: accept an expression that reads the same grammar positions with the same conversions
